@@ -88,6 +88,16 @@ def gen(rng, tier, n):
             keys += ["enter", "ctrl-c"]
             yield "K|%s|%s|%s" % (",".join(opts), ",".join(enc(i) for i in items), " ".join(enc(x) for x in keys))
             continue
+        if rng.random() < 0.08:
+            # directed: if-query-empty / if-query-not-empty evaluated while the cursor is NOT at the end of a non-empty query
+            # (the condition is about the whole query, not about the text on one side of the cursor)
+            chain = rng.choice(["if-query-empty(abort)+accept", "if-query-not-empty(abort)+accept", "if-query-empty(accept(e))+abort",
+                                "if-query-not-empty(accept(ne))+abort"])
+            opts = (["multi"] if rng.random() < 0.5 else []) + (["pq"] if rng.random() < 0.5 else []) + ["bind=" + enc("ctrl-t:" + chain)]
+            items = [rng.choice(WORDS) for _ in range(rng.choice([2, 3, 5]))]
+            keys = [rng.choice("abc") for _ in range(rng.choice([1, 2]))] + [rng.choice(["ctrl-a", "ctrl-a", "ctrl-b"])] + ["ctrl-t", "enter", "ctrl-c"]
+            yield "K|%s|%s|%s" % (",".join(opts), ",".join(enc(i) for i in items), " ".join(enc(x) for x in keys))
+            continue
         if rng.random() < 0.05:
             # directed: one key both bound (--bind) and expected (--expect): pressing it ends the session with an accept naming it
             k = rng.choice(["ctrl-x", "alt-a", "f1"])
